@@ -7,6 +7,8 @@
 
 mod abort;
 mod boxinit;
+mod claimops;
+mod copyops;
 mod elem;
 mod flatten;
 mod overflow;
@@ -411,6 +413,11 @@ pub fn ops_for(n: usize, thorough: bool, inject: bool) -> Vec<VOp> {
             }
             for c in [0usize, 2] {
                 v.push(VOp::Splice(s, e, c, Take::All));
+                if c > 0 {
+                    // honest lower bounds: exact, and one short of the number of items
+                    v.push(VOp::SpliceHint(s, e, c + 1, c + 1));
+                    v.push(VOp::SpliceHint(s, e, c + 1, c));
+                }
                 if thorough || inject {
                     v.push(VOp::Splice(s, e, c, Take::None));
                 }
@@ -642,7 +649,7 @@ fn parse_case(s: &str) -> Option<(String, usize, Kind, bool, usize, Option<u64>,
     Some((m.get("prop")?.to_string(), m.get("cfg")?.parse().ok()?, Kind::parse(m.get("kind")?)?, *m.get("zst")? == "1", m.get("init")?.parse().ok()?, if k < 0 { None } else { Some(k as u64) }, *m.get("drops")? == "1", ops))
 }
 
-fn parse_ops(s: &str) -> Option<Vec<VOp>> {
+pub fn parse_ops(s: &str) -> Option<Vec<VOp>> {
     // Debug format of VOp, e.g. Drain(1, 2, FrontOne)
     let mut out = Vec::new();
     if s.is_empty() {
@@ -700,6 +707,7 @@ fn parse_ops(s: &str) -> Option<Vec<VOp>> {
             ),
             "Drain" => VOp::Drain(u(0)?, u(1)?, take(2)?),
             "Splice" => VOp::Splice(u(0)?, u(1)?, u(2)?, take(3)?),
+            "SpliceHint" => VOp::SpliceHint(u(0)?, u(1)?, u(2)?, u(3)?),
             "ExtractIf" => VOp::ExtractIf(u(0)? as u8, take(1)?),
             "Retain" => VOp::Retain(u(0)? as u8),
             "Dedup" => VOp::Dedup,
@@ -823,7 +831,10 @@ fn main() {
                         // one level deeper with the plain alphabet: a panic at every callback of every history of 3 operations
                         results.push(explore_vecs_ex(&prop, true, false, 3, vec![0, 2], "vectors-depth-3-plain-alphabet", deadline));
                     }
-                    if thorough && prop == "C08" && results[0].1.is_empty() {
+                    if prop == "C08" && results[0].1.is_empty() {
+                        results.push(copyops::explore(thorough));
+                    }
+                    if thorough && prop == "C08" && results.iter().all(|r| r.1.is_empty()) {
                         results.push(explore_vecs_ex(&prop, true, false, 4, vec![0, 2], "vectors-depth-4-plain-alphabet", deadline));
                     }
                 }
@@ -837,6 +848,7 @@ fn main() {
                     results.push(strfail::explore_str_failures(thorough, deadline));
                     results.push(explore_abort_probes(thorough));
                     results.push(overflow::explore(thorough));
+                    results.push(claimops::explore(thorough));
                 }
                 _ => panic!("unknown property"),
             };
@@ -857,6 +869,20 @@ fn main() {
                 match abort_verdict(ci.parse().expect("ci"), name) {
                     Ok(_) => println!("REPLAY OK"),
                     Err(m) => println!("REPLAY VIOLATION step=0 msg={m}"),
+                }
+                return;
+            }
+            if case.starts_with("claimops:") {
+                match claimops::replay(&case) {
+                    Some(m) => println!("REPLAY VIOLATION step=0 msg={m}"),
+                    None => println!("REPLAY OK"),
+                }
+                return;
+            }
+            if case.starts_with("copyops:") {
+                match copyops::replay(&case) {
+                    Some(m) => println!("REPLAY VIOLATION step=0 msg={m}"),
+                    None => println!("REPLAY OK"),
                 }
                 return;
             }
